@@ -261,7 +261,7 @@ proof fn lemma_child_depth_smaller(t: &BlockTree<CachedBlock>, i: int)
 
 //@extract file=canister/src/state.rs item="fn ingest_stable_blocks_into_utxoset" props=C03
 //@ ret r
-//@ rewrite R9 "fn pop_block\(state: &mut State, ingested_block_hash: BlockHash\) \{" => "fn pop_block(state: &mut State, ingested_block_hash: BlockHash) requires stable_child_spec(&old(state).unstable_blocks).is_some(), old(state).unstable_blocks.tree.root.block_hash == ingested_block_hash, ensures final(state).utxos == old(state).utxos, final(state).stable_block_headers == old(state).stable_block_headers, final(state).metrics == old(state).metrics, 0 <= stable_child_spec(&old(state).unstable_blocks).unwrap() < old(state).unstable_blocks.tree.children@.len(), final(state).unstable_blocks.tree == old(state).unstable_blocks.tree.children@[stable_child_spec(&old(state).unstable_blocks).unwrap()], {"
+//@ rewrite R9 "fn pop_block\(state: &mut State, ingested_block_hash: BlockHash\) \{" => "fn pop_block(state: &mut State, ingested_block_hash: BlockHash) requires stable_child_spec(&old(state).unstable_blocks).is_some(), old(state).unstable_blocks.tree.root.block_hash == ingested_block_hash, old(state).utxos.next_height >= 1, ensures final(state).utxos == old(state).utxos, final(state).stable_block_headers.by_height@ == old(state).stable_block_headers.by_height@.insert((old(state).utxos.next_height - 1) as Height, ingested_block_hash), final(state).metrics == old(state).metrics, 0 <= stable_child_spec(&old(state).unstable_blocks).unwrap() < old(state).unstable_blocks.tree.children@.len(), final(state).unstable_blocks.tree == old(state).unstable_blocks.tree.children@[stable_child_spec(&old(state).unstable_blocks).unwrap()], {"
 //@ spec
 //@| requires
 //@|     wf_ingesting(old(state)),
@@ -302,19 +302,13 @@ proof fn lemma_child_depth_smaller(t: &BlockTree<CachedBlock>, i: int)
 //@| let ghost vp_pre_blocks = state.unstable_blocks;
 //@end
 
-// while a block is being ingested in slices the code has ALREADY stored its header at the stable height
-spec fn wf_headers_ingesting(s: &State) -> bool {
-    s.utxos.ingesting.is_some()
-    && forall|h: Height| s.stable_block_headers.by_height@.dom().contains(h) <==> h <= s.utxos.next_height
-}
-
 //@extract file=canister/src/state.rs item="fn ingest_stable_blocks_into_utxoset" props=C07 rename=ingest_stable_blocks_into_utxoset_c07
 //@ ret r
-//@ rewrite R9 "fn pop_block\(state: &mut State, ingested_block_hash: BlockHash\) \{" => "fn pop_block(state: &mut State, ingested_block_hash: BlockHash) requires stable_child_spec(&old(state).unstable_blocks).is_some(), old(state).unstable_blocks.tree.root.block_hash == ingested_block_hash, ensures final(state).utxos == old(state).utxos, final(state).stable_block_headers == old(state).stable_block_headers, final(state).metrics == old(state).metrics, 0 <= stable_child_spec(&old(state).unstable_blocks).unwrap() < old(state).unstable_blocks.tree.children@.len(), final(state).unstable_blocks.tree == old(state).unstable_blocks.tree.children@[stable_child_spec(&old(state).unstable_blocks).unwrap()], {"
+//@ rewrite R9 "fn pop_block\(state: &mut State, ingested_block_hash: BlockHash\) \{" => "fn pop_block(state: &mut State, ingested_block_hash: BlockHash) requires stable_child_spec(&old(state).unstable_blocks).is_some(), old(state).unstable_blocks.tree.root.block_hash == ingested_block_hash, old(state).utxos.next_height >= 1, ensures final(state).utxos == old(state).utxos, final(state).stable_block_headers.by_height@ == old(state).stable_block_headers.by_height@.insert((old(state).utxos.next_height - 1) as Height, ingested_block_hash), final(state).metrics == old(state).metrics, 0 <= stable_child_spec(&old(state).unstable_blocks).unwrap() < old(state).unstable_blocks.tree.children@.len(), final(state).unstable_blocks.tree == old(state).unstable_blocks.tree.children@[stable_child_spec(&old(state).unstable_blocks).unwrap()], {"
 //@ spec
 //@| requires
 //@|     wf_ingesting(old(state)),
-//@|     if old(state).utxos.ingesting.is_some() { wf_headers_ingesting(old(state)) } else { wf_headers(old(state)) },
+//@|     wf_headers(old(state)),
 //@|     old(state).utxos.next_height as int + old(state).unstable_blocks.tree.sdepth() + 0x10_0000 < u32::MAX,
 //@| ensures
 //@|     // C07: at EVERY exit (also the paused ones) the store holds exactly the headers below the stable height,
